@@ -285,6 +285,37 @@ CHECKS = {
               "(as the repository's own test does)."),
         technique="TLA+ index-map model of the spectral helpers checked with TLC + trace validation on the impulse basis + replay of exported sizes/offsets",
     ),
+    "C14": dict(
+        category="model_checking",
+        text=("TLC checks spec/lib/Features.tla - a transcription of find_peak / pick_maxima, invert_peak_waveform, find_trough, the "
+              "swap branch of find_tip_trough, find_tip, half_peak_point and recovery_point with NumPy's first-occurrence "
+              "tie-breaking and NaN handling - against the property layer (succeeds when the largest deflection is not on sample "
+              "0; peak = global |extremum| or exactly the documented swap; tip < peak <= trough; nearest half-peak points; "
+              "recovery = min(trough + d, T-1); scaling by 2, 3 keeps indices; permuting traces permutes only the peak-trace "
+              "index) on every integer waveform of boxes up to T <= 6 / 3 traces / values -3..3 / NaN. Exported cases with "
+              "expected outcomes are replayed on compute_spike_features, and every real execution (boxes + realistic integer-count "
+              "batches with scaled / permuted / re-batched copies, extrema swept to the last samples) is validated by "
+              "spec/trace/FeaturesTrace.tla."),
+        design_ref="DESIGN.md §4 C14",
+        note=("Trusted: TLC; harness/c14.py. The equivariance laws on float-valued realistic batches (all columns incl. slopes, "
+              "rtol 1e-9) are numeric projections; a sample exactly at half the peak may or may not count (the text does not fix "
+              "strictness)."),
+        technique="TLA+ transcription of the feature pipeline checked with TLC + replay of exported cases + trace validation of real executions",
+    ),
+    "C20": dict(
+        category="model_checking",
+        text=("TLC checks spec/lib/Counting.tla: the Venn level-peeling loop over every chunking of small count tables (every spike "
+              "of every sorter in exactly one region; equality with a chunk-free reference), stack grouping for all label vectors, "
+              "and the trajectory-matrix index formulas for full and staggered grids (cover, multiplicity = trcount, Hankel "
+              "structure). Exported tables / vectors / layouts are turned into spike trains (several chunk sizes), stack inputs "
+              "and coordinates and replayed; every real spikes_venn2/3, stack and trajectory call (per-chunk bin counts read by a "
+              "spy on bincount2D) is validated by spec/trace/CountingTrace.tla. Rank-reduction (cadzow.denoise, svd_denoise_npx) and "
+              "smoother / Savitzky-Golay identities are evaluated on the spec's layout x rank scenario grid."),
+        design_ref="DESIGN.md §4 C20, §5",
+        note=("Trusted: TLC; harness/c20.py. SVD / least-squares / filter clauses (identity at full rank 1e-9, noise reduced, "
+              "constants kept, polynomial reproduction 1e-6, finite over NaN gaps) are numeric projections, not TLC."),
+        technique="TLA+ counting/index models checked with TLC + replay of exported cases + trace validation; linear-algebra clauses by projection",
+    ),
 }
 
 NOT_YET = {}
